@@ -589,7 +589,10 @@ class Oracle:
 
     def fail(self, key, what, replay):
         self.nfail += 1
-        if self.nfail <= 8:
+        # at most 3 reports per key and 24 in all, so that a frequent (e.g. recorded) class cannot crowd out another one
+        self.perkey = getattr(self, "perkey", {})
+        self.perkey[key] = self.perkey.get(key, 0) + 1
+        if self.perkey[key] <= 3 and sum(min(v, 3) for v in self.perkey.values()) <= 24:
             self.ctx.oracle_failure("c35:" + key, what, replay)
 
     def dev(self, k, v):
@@ -743,6 +746,8 @@ class Oracle:
                 mom, frame, elementwise, p0 = list(parts[0][3]), parts[0][2], True, parts[0][1]
             else:
                 mom, full = eigvals_sym3(T), T
+                if mom[2] < 1e-11:
+                    return   # mjuu_fullInertia rejects eigenvalues below mjEPS = 1e-14: at that scale either outcome
             m0, kind = M, "geoms"
         else:
             m0, p0, kind = c["mass"], (c["ipos"] if c["hasipos"] else [0.0, 0.0, 0.0]), c["ikind"]
